@@ -159,13 +159,38 @@ func c18Merge(c *mon.Ctx, aText, bText string) {
 	c.Sample(extra)
 }
 
+// nullsIntoArrays inserts null elements into some arrays of v (never as an
+// object member value).
+func nullsIntoArrays(r *gen.RNG, v any) any {
+	switch t := v.(type) {
+	case []any:
+		out := make([]any, 0, len(t)+2)
+		for _, e := range t {
+			if r.Chance(0.2) {
+				out = append(out, nil)
+			}
+			out = append(out, nullsIntoArrays(r, e))
+		}
+		if r.Chance(0.25) {
+			out = append(out, nil)
+		}
+		return out
+	case map[string]any:
+		for _, k := range ref.SortedKeys(t) {
+			t[k] = nullsIntoArrays(r, t[k])
+		}
+		return t
+	}
+	return v
+}
+
 func init() {
 	p := &mon.Property{
 		ID: "C18",
-		Rule: "v1 (package lib): list-mode (a, b) pairs incl. keys that look like integers (kept by v1), keys needing pointer escaping, arrays growing (-1 append rendered as '/-'), shrinking and changing in place; merge-mode null-free pairs that differ; " +
+		Rule: "v1 (package lib): list-mode (a, b) pairs incl. keys that look like integers (kept by v1), keys needing pointer escaping, arrays growing (-1 append rendered as '/-'), shrinking and changing in place; merge-mode pairs that differ, null-free or with nulls as array elements only; " +
 			"RenderPatch is evaluated by the harness's RFC 6902 evaluator and RenderMerge by the RFC 7386 pseudocode on a (must give b); both texts are read back with the v1 readers and applied to a (must give b); non-trivial = non-empty diff; distinct = distinct (a, b)",
-		Floors: map[string]int{"rfc6902_gives_b": 20000, "patch_read_back_gives_b": 20000, "rfc7386_gives_b": 10000, "merge_read_back_gives_b": 10000, "append_token_rendered": 3000, "integer_like_keys": 3000, "merge_patch_deletes": 2000},
-		Assumptions: []string{"same RFC 6902 root-replacement reading as C09 (DESIGN 5.9)", "merge-mode documents are null-free and differ"},
+		Floors: map[string]int{"rfc6902_gives_b": 20000, "patch_read_back_gives_b": 20000, "rfc7386_gives_b": 10000, "merge_read_back_gives_b": 10000, "append_token_rendered": 3000, "integer_like_keys": 3000, "merge_patch_deletes": 2000, "b_has_null_array_elements": 2000},
+		Assumptions: []string{"same RFC 6902 root-replacement reading as C09 (DESIGN 5.9)", "merge-mode documents differ and carry no null as an object member value (RFC 7386 cannot express one); null elements of arrays are used"},
 	}
 	numKeys := gen.PHostile.With(func(p *gen.Profile) { p.Keys = append(append([]string{}, gen.KeysHostile...), "0", "1", "2", "12", "01", "-1", "+1", "1e3") })
 	profs := []gen.Profile{gen.PDefault, gen.PTiny, gen.PDeep, gen.PNulls, gen.PHostile, numKeys, gen.PNumbers}
@@ -207,6 +232,21 @@ func init() {
 			}
 			if i%6 == 5 {
 				a, b = gen.DeepChainPair(c.R, prof, true)
+			}
+			c18Merge(c, ref.ToJSON(a), ref.ToJSON(b))
+		},
+	})
+	p.Strata = append(p.Strata, mon.Stratum{
+		Name: "merge/nulls-inside-arrays",
+		N:    qt(8000, 800000),
+		Run: func(c *mon.Ctx, i int) {
+			// null is only special as an object member of a merge patch: an array is a
+			// non-object value and replaces the target verbatim, nulls included
+			prof := mergeProfiles[i%len(mergeProfiles)].With(func(p *gen.Profile) { p.PArr = 0.5 })
+			a, b := gen.Pair(c.R, prof)
+			a, b = nullsIntoArrays(c.R, a), nullsIntoArrays(c.R, b)
+			if ref.HasNull(b) {
+				c.Feature("b_has_null_array_elements")
 			}
 			c18Merge(c, ref.ToJSON(a), ref.ToJSON(b))
 		},
